@@ -850,8 +850,22 @@ class C06(core.Check):
                 and 'json_out' not in tools and rng.random() < .4
         fd = FILEDATA if static and rng.random() < .9 else b''
         return {'shape': shape, 'act': act, 'tools': [t for t in TOOLS if t in tools], 'own_cl': bool(own_cl),
+                # the handler sets Content-Length to None explicitly ("no length known": what serve_fileobj does for a
+                # file object without fileno(), or user code asking for chunking) - the same as not setting it
+                'cl_none': (not own_cl) and not static and rng.random() < .25,
                 'page': page, 'filedata': fd if static else None,
-                'reqs': [{'m': m, 'hdr': dict(hdr)} for m in meths]}
+                'reqs': self.mixed_history(rng, tools, hdr) or [{'m': m, 'hdr': dict(hdr)} for m in meths]}
+
+    def mixed_history(self, rng, tools, hdr):
+        """cache fill, then a hit that ends in an error / 304 (failing or matching precondition), then a plain hit:
+        what the failing request does to its response must not stick to the cached entry"""
+        if 'caching' not in tools or 'etags' not in tools or rng.random() < .5:
+            return None
+        plain = {k: v for k, v in hdr.items() if k not in ('im', 'inm')}
+        cond = dict(plain, **{rng.choice(['im', 'im', 'inm']): True})
+        self.count('history: fill / conditional hit / plain hit')
+        return [{'m': 'GET', 'hdr': dict(plain)}, {'m': rng.choice(['GET', 'GET', 'HEAD']), 'hdr': cond},
+                {'m': 'GET', 'hdr': dict(plain)}]
 
     def random_case(self, rng):
         for _ in range(200):
@@ -958,6 +972,8 @@ class C06(core.Check):
                     body, n = static.serve_file(CUR['path']), None
                 if c.get('own_cl') and n is not None:
                     resp.headers['Content-Length'] = n
+                elif c.get('cl_none'):
+                    resp.headers['Content-Length'] = None
                 if act.startswith('redir'):
                     raise cherrypy.HTTPRedirect('/target', int(act[5:]))
                 if act.startswith('err'):
